@@ -7,11 +7,19 @@ P: RG.Engine.CommentSpec models runCommentRules + handleCommentMatch with the re
    group is bound by regexp group index to its submatch text ("" when it did not participate). The theorems are
    instantiated with nodeText's in-range test regenerated from /repo (shared with C03) on every run, and runCommentRules
    itself is translated from runner.go statement by statement (go2coq c12loop) and proved on every run to BE that model
-   (C12_translated_loop_is_model), for every base of the file in the FileSet.
+   (C12_translated_loop_is_model), for every base of the file in the FileSet. The LOADER of comment rules (loadCommentRule +
+   the tail of loadRule that ranges over rule.CommentPatterns) is translated too (go2coq c12load) and proved to be the
+   model loader: a MatchComment call with k regexps is k comment rules in the written order, each with its own regexp's
+   names / flag / line (C12_alternatives_are_rules_in_written_order, C12_k_alternatives_are_k_rules), and running the
+   loaded list is "call by call, alternative by alternative in the written order" (C12_loaded_run_is_call_by_call,
+   C12_report_is_first_accepting_alternative).
 K: the Coq model (the translated runCommentRules) is executed on every generated comment with the indices Go's regexp returned on comment.Text and
    compared with the observed ReportData (byte ranges, message, suggestion, line).
+   The rules the model runs are LOADED inside Coq by the translated loader from the calls as written and compared with the
+   engine's own rule list (hook VerifCommentRules).
 O: expected reports are computed independently from the comment's SOURCE bytes (regexp.FindSubmatchIndex on the file
-   bytes at the comment's offset known by construction, independent of comment.Text) and compared with the observation.
+   bytes at the comment's offset known by construction, independent of comment.Text) and compared with the observation; the
+   engine's loaded rule list must be the written regexps one by one, calls in source order, rules files in load order.
 """
 import base64
 import json
@@ -28,13 +36,16 @@ def b64(x):
 
 
 def run(c):
-    c.go2coq_sources = ["c03.go", "textmatch.go", "c12.go", "c03loop.go", "c12loop.go"]   # private translator build: another family's generator cannot break this check
+    c.go2coq_sources = ["c03.go", "textmatch.go", "c12.go", "c03loop.go", "c12loop.go", "c12load.go"]   # private translator build: another family's generator cannot break this check
     thorough = c.tier == "thorough"
-    c.rule = ("14 fixed MatchComment rules (named, unnamed-in-front, optional, nested, alternative (non-participating) groups, no groups "
-              "= fast path, multi-byte, (?s) multi-line, Where filters, At(), Suggest, two alternatives) plus seeded random rules inserted at "
-              "random load positions; comments: line and block, after code and after multi-byte strings, adjacent, multi-line, empty, at "
-              "EOF, with CRLF inside block comments, plus seeded random comments; TruncateLen 0 and 15; non-trivial = a report was "
-              "expected or produced; distinct by (comment bytes, offset, TruncateLen)")
+    c.rule = ("fixed MatchComment rules (named groups in both spellings, unnamed-in-front, optional, nested, alternative (non-participating) "
+              "groups, no groups = fast path, multi-byte, (?s) multi-line, Where filters on Text / Line / Node, At(), Suggest), rule families "
+              "that match the same comments and mostly reject, MatchComment calls with 2..4 regexps that bind the same names at different "
+              "group indices (8 fixed + seeded random ones; comments hit by every single alternative and by every ordered pair of "
+              "alternatives), seeded random rules at random load positions, three rules files; comments: line and block, after code and "
+              "after multi-byte strings, adjacent, multi-line, empty, at EOF, with CRLF inside block comments, four target files (one a "
+              "later version at the same path) in one FileSet through one RunnerState; TruncateLen 0 and 15; non-trivial = a report was "
+              "expected or produced (distinct by comment bytes, offset, file, TruncateLen), a pattern with named groups, a call with several regexps")
     c.trusted += [
         "Go regexp as an oracle: leftmost match and submatch indices (FindStringSubmatchIndex), SubexpNames -- inputs of the model",
         "go/parser + go/scanner deliver comment.Text and positions (the scanner strips \\r: see the known finding)",
@@ -42,14 +53,18 @@ def run(c):
         "with break/continue over explicit loop states, partial indexing/slicing in the outcome monad, token.File.Pos/Offset as base + "
         "offset, the composite literals as abstract constructors); handleCommentMatch is modelled by hand (CommentSpec.handle / "
         "mk_creport) -- tied by correspondence on every run and by the statement facts regenerated for C03 and C12",
-        "go2coq c03extras (nodeText in-range test), c12facts; harness/cmd/c12 and hook VerifRegexpHasCaptureGroups (build tag verif)",
+        "go2coq c12load: the statement-level translator of loadCommentRule and the comment-pattern tail of loadRule (functions returning error "
+        "as option E * state, the rule slice as the only state, regexp.Compile / checkBoundVars / errorf / the goCommentRule literal as abstract "
+        "operations); the part of loadRule in front of that tail (the goRule prototype, the filter) and LoadFile's walk over groups are modelled "
+        "by hand (CommentLoad.load_rules / load_files) and tied by the comparison with the engine's rule list on every run",
+        "go2coq c03extras (nodeText in-range test), c12facts; harness/cmd/c12 and hooks VerifRegexpHasCaptureGroups, VerifCommentRules (build tag verif)",
     ]
-    c.notes += ["filters in the correspondence are of the form m[name].Text == literal; other predicates on comment captures go through nodeText the same way",
+    c.notes += ["filters in the correspondence: Text ==/!= literal or another variable's Text, Text.Matches, Line against a variable's Line or a constant, Node.Is, !, &&, ||",
                 "regexpHasCaptureGroups itself is verified in C11 (has_capture_correct); here only its use (path choice) is modelled"]
 
     c.sh([os.path.join(c.verif, "coq", "build.sh")], timeout=3400)
     c.require_theories("Base/*.v", "Regex/Utf8.v", "Regex/Regex.v", "Regex/Capture.v", "Engine/TruncateSpec.v", "Engine/RenderSpec.v",
-                       "Engine/CommentSpec.v")
+                       "Engine/CommentSpec.v", "Engine/CommentLoop.v", "Engine/CommentLoad.v")
 
     gen_ok = False
     gen12_ok = False
@@ -65,13 +80,27 @@ def run(c):
         if c.coq_compile(["Gen_C12Loop.v"]):
             c.install_tmpl("C12/Def_CommentLoop.v")
             loop_ok = c.coq_compile(["Def_CommentLoop.v"])    # definitions only: the executed model
+    # loadCommentRule + the tail of loadRule that ranges over rule.CommentPatterns, translated statement by statement; the
+    # executed model loads its rules with the translated loader when it translates
+    load_ok = False
+    if c.go2coq("c12load", "Gen_C12Load.v"):
+        if c.coq_compile(["Gen_C12Load.v"]):
+            c.install_tmpl("C12/Def_CommentLoad.v")
+            load_ok = c.coq_compile(["Def_CommentLoad.v"])    # definitions only: the executed loader
     if gen_ok and gen12_ok:
-        c.install_tmpl("C03/Inst_Render.v", "C12/Inst_Comment.v", "C12/Inst_CommentLoop.v", "C12/C12.v")
+        c.install_tmpl("C03/Inst_Render.v", "C12/Inst_Comment.v", "C12/Inst_CommentLoop.v", "C12/Inst_CommentLoad.v", "C12/C12.v")
         c.coq_compile(["Inst_Render.v", "Inst_Comment.v"])
         if loop_ok:
-            c.coq_compile(["Inst_CommentLoop.v", "C12.v"])
+            c.coq_compile(["Inst_CommentLoop.v"])
         else:
             c.obligation("coq:Inst_CommentLoop.v", False, "not compiled: runCommentRules did not translate")
+        if load_ok:
+            c.coq_compile(["Inst_CommentLoad.v"])
+        else:
+            c.obligation("coq:Inst_CommentLoad.v", False, "not compiled: the loader of comment rules did not translate")
+        if loop_ok and load_ok:
+            c.coq_compile(["C12.v"])
+        else:
             c.obligation("coq:C12.v", False, "not compiled: a file it depends on failed")
     # the executed model declares the loop's match data where the source does (read off by go2coq); without a readable
     # source it falls back to the specified behaviour
@@ -109,6 +138,57 @@ def run(c):
                 finfo["parser_comments"], finfo["built_comments"]))
         srcs = [b64(x) for x in finfo["srcs"]]
         pending = []
+        irules = next((o["irules"] for o in obs if o["k"] == "irules"), None)
+        loaded = next((o["loaded"] for o in obs if o["k"] == "loaded"), None)
+        if irules is None or loaded is None:
+            c.obligation("harness-output:c12", False, "no irules/loaded record")
+            return
+        loaded = loaded or []
+        # ---- O (loader): every regexp of every MatchComment call is a comment rule of its own, in the written order: the
+        # engine's rule list is the list of the written regexps (pattern source to the byte, group names of THAT regexp, its
+        # line, its group), the calls in source order, the rules files in load order
+        first_of_group = {}
+        for k, r in enumerate(rules):
+            first_of_group.setdefault(r["group"], k)
+        call_of = {ir["group"]: ir for ir in irules}
+
+        def call_text(group):
+            ir = call_of.get(group)
+            if ir is None:
+                return None
+            return "m.MatchComment(%s)%s.Report(`%s`)" % (", ".join("`%s`" % a["pat"] for a in ir["alts"]),
+                                                          (".Where(..)" if ir["filter"] else "") + (".At(m[%r])" % ir["at"] if ir["at"] else ""), ir["msg"])
+        c.count(len(irules))
+        for ir in irules:
+            if len(ir["alts"]) > 1:
+                c.nontriv(("call", ir["group"], tuple(a["pat"] for a in ir["alts"])))
+        load_bad = False
+        by_group = {}
+        for lr in loaded:
+            by_group.setdefault(lr["Group"], []).append(lr)
+        for ir in irules:
+            got = by_group.get(ir["group"], [])
+            want = [(a["pat"], a["line"]) for a in ir["alts"]]
+            have = [(lr["Pattern"], lr["Line"]) for lr in got]
+            if want != have:
+                load_bad = True
+                c.fail("oracle", "a MatchComment call is not loaded as one comment rule per regexp, in the written order (pattern source, line)",
+                       input={"call": call_text(ir["group"]), "group": ir["group"], "rules_file": ir["file"]},
+                       expected=[{"pattern": p_, "line": l_} for p_, l_ in want], observed=[{"pattern": p_, "line": l_} for p_, l_ in have])
+        if not load_bad:
+            if [lr["Group"] for lr in loaded] != [r["group"] for r in rules]:
+                load_bad = True
+                c.fail("oracle", "the loaded comment rules do not stand in load order (rules files in the order they were loaded, calls in source order)",
+                       input={"rules_files": 3, "calls": len(irules)}, expected=[r["group"] for r in rules][:40], observed=[lr["Group"] for lr in loaded][:40])
+        if not load_bad:
+            for r, lr in zip(rules, loaded):
+                exp = {"names": r["names"], "capture_groups": r["numsub"] > 0, "msg": r["msg"], "sugg": r["sugg"], "at": r["at"]}
+                got = {"names": lr["SubexpNames"], "capture_groups": lr["CaptureGroups"], "msg": lr["Msg"], "sugg": lr["Suggestion"], "at": lr["Location"]}
+                if exp != got:
+                    c.fail("oracle", "a loaded comment rule does not carry its own regexp's group names / capture flag / the call's templates",
+                           input={"call": call_text(r["group"]), "alternative": r["pat"]}, expected=exp, observed=got)
+        c.coverage["matchcomment_calls"] = len(irules)
+        c.coverage["calls_with_several_regexps"] = sum(1 for ir in irules if len(ir["alts"]) > 1)
         # the flag that sends a rule down the no-submatch path must not be false for a pattern that names a group
         for r in rules:
             c.count()
@@ -180,6 +260,33 @@ def run(c):
                     ofail("suggestion text differs", repr(b64(w["sugg"])), repr(b64(r["sugg"])))
             if not (o["off"] <= r["pos"] <= r["end"] <= o["off"] + len(b64(o["src"]))) and not o["has_cr"]:
                 ofail("the reported node does not lie inside the comment", [o["off"], o["off"] + len(b64(o["src"]))], [r["pos"], r["end"]])
+        # the classes a call with several regexps is about must be reached (measured): a later-written alternative reports;
+        # the reporting alternative stands BEFORE another alternative of its call that matches further to the left
+        non_first = beats_leftmost = after_rejected_alt = 0
+        for o in comments:
+            w = o.get("want")
+            if not w or o.get("has_cr"):
+                continue
+            k0 = first_of_group[w["group"]]
+            j = w["rule"] - k0
+            if j > 0:
+                non_first += 1
+                if any(o["idx_src"][k] is not None for k in range(k0, w["rule"])):
+                    after_rejected_alt += 1
+            mine = o["idx_src"][w["rule"]]
+            k = w["rule"] + 1
+            while k < len(rules) and rules[k]["group"] == w["group"]:
+                if o["idx_src"][k] is not None and mine is not None and o["idx_src"][k][0] < mine[0]:
+                    beats_leftmost += 1
+                    break
+                k += 1
+        for key, v in (("reports_by_a_later_written_alternative", non_first), ("reports_where_a_later_written_alternative_matches_further_left", beats_leftmost),
+                       ("reports_after_an_earlier_alternative_of_the_call_matched_and_rejected", after_rejected_alt)):
+            c.coverage[key] = c.coverage.get(key, 0) + v
+        if not any(o.get("panic") for o in comments):       # a run that died has no expectations to count
+            c.obligation("generator:%s reaches the alternative classes" % tag, non_first >= 8 and beats_leftmost >= 4 and after_rejected_alt >= 4,
+                         "later-written alternative reports: %d, written order beats leftmost: %d, after a rejected earlier alternative: %d" % (
+                             non_first, beats_leftmost, after_rejected_alt))
         c.coverage["oracle_vs_impl_cases"] = c.coverage.get("oracle_vs_impl_cases", 0) + len(comments)
         c.coverage["comments_with_CR"] = c.coverage.get("comments_with_CR", 0) + sum(1 for o in comments if o.get("has_cr"))
         c.coverage["comment_rules"] = len(rules)
@@ -196,6 +303,12 @@ def run(c):
             v, lit = coq_bytes(f.get("var", "").encode()), coq_bytes(f.get("lit", "").encode())
             if op in ("eq", "ne", "eqvar", "nevar", "matches"):
                 return "(%s %s %s)" % ({"eq": "FTextEq", "ne": "FTextNe", "eqvar": "FTextEqVar", "nevar": "FTextNeVar", "matches": "FTextMatches"}[op], v, lit)
+            if op in ("lineeq", "linene", "linelt"):
+                return "(%s %s %s)" % ({"lineeq": "FLineEq", "linene": "FLineNe", "linelt": "FLineLt"}[op], v, lit)
+            if op == "linegt":
+                return "(FLineGtC %s %d)" % (v, f.get("n", 0))
+            if op == "nodeis":
+                return "(FNodeIs %s %s)" % (v, lit)
             if op == "not":
                 return "(FNot %s)" % coq_filter(f["a"])
             return "(%s %s %s)" % ({"and": "FAnd", "or": "FOr"}[op], coq_filter(f["a"]), coq_filter(f["b"]))
@@ -204,6 +317,17 @@ def run(c):
             return ("{| c_names := [%s]; c_groups := %s; c_filter := %s; c_rule := {| r_msg := %s; r_sugg := %s; r_loc := %s; r_line := %d |} |}" % (
                 ";".join(coq_bytes(n.encode()) for n in r["names"]), "true" if r["groups"] else "false", coq_filter(r.get("filter")), coq_bytes(r["msg"].encode()),
                 coq_bytes(r["sugg"].encode()), ("(Some %s)" % coq_bytes(r["at"].encode())) if r["at"] else "None", r["line"]))
+
+        def coq_irule(ir):
+            return "{| i_alts := [%s]; i_filter := %s; i_msg := %s; i_sugg := %s; i_loc := %s |}" % (
+                "; ".join("{| a_pat := %s; a_line := %d |}" % (coq_bytes(a["pat"].encode()), a["line"]) for a in ir["alts"]),
+                coq_filter(ir.get("filter")), coq_bytes(ir["msg"].encode()), coq_bytes(ir["sugg"].encode()),
+                ("(Some %s)" % coq_bytes(ir["at"].encode())) if ir["at"] else "None")
+        nfiles = 1 + max(ir["file"] for ir in irules)
+        pat_names, pat_groups = {}, {}
+        for r in rules:
+            pat_names[r["pat"]] = r["names"]
+            pat_groups[r["pat"]] = r["groups"]
 
         def coq_idx(ix):
             if ix is None:
@@ -225,7 +349,7 @@ def run(c):
             ("From RGW Require Import Gen_C12." if gen12_ok else ""),
             ("From RG.Engine Require Import RenderLoop CommentLoop.\nFrom RGW Require Import Gen_C12Loop Def_CommentLoop." if loop_ok else ""),
             "From RGW Require Import Gen_C03." if gen_ok else
-            "Definition nodeTextInRange (from to : Z) (src : bytes) : outcome bool := Ok ((0 <=? from)%Z && (from <? len src)%Z && ((0 <=? to)%Z && (to <=? len src)%Z)).",
+            "Definition nodeTextInRange (from to : Z) (src : bytes) : outcome bool := Ok ((0 <=? from)%Z && (from <? len src)%Z && ((from <=? to)%Z && (to <=? len src)%Z)).",
             "Import ListNotations. Local Open Scope Z_scope.",
             # big list literals overflow coqc's parser stack: the files are given in chunks
             "\n".join("Definition src_%d_%d : bytes := %s." % (fi, k // 4000, coq_bytes(x[k:k + 4000])) for fi, x in enumerate(srcs)
@@ -233,7 +357,30 @@ def run(c):
             "Definition srcs : list bytes := [%s]." % ";\n".join(
                 "(" + " ++ ".join("src_%d_%d" % (fi, k // 4000) for k in range(0, max(len(x), 1), 4000)) + ")" for fi, x in enumerate(srcs)),
             "Definition bases : list Z := [%s]." % ";".join(str(b) for b in finfo["bases"]),
-            "Definition rules : list crule := [%s]." % ";\n".join(coq_rule(r) for r in rules),
+            # the rules are LOADED inside Coq from the calls as written: by the loader translated from ir_loader.go when it
+            # translates, else by the model loader; the regexp compiler's answers (SubexpNames, has-capture flag) are tables
+            "From RG.Engine Require Import CommentLoad.",
+            ("From RGW Require Import Gen_C12Load Def_CommentLoad." if load_ok else ""),
+            "Definition irules : list (list irule) := [%s]." % ";\n".join(
+                "[" + ";\n".join(coq_irule(ir) for ir in irules if ir["file"] == fi) + "]" for fi in range(nfiles)),
+            "Definition names_tbl : list (bytes * list bytes) := [%s]." % ";\n".join(
+                "(%s, [%s])" % (coq_bytes(p_.encode()), ";".join(coq_bytes(n.encode()) for n in ns)) for p_, ns in sorted(pat_names.items())),
+            "Definition groups_tbl : list (bytes * bool) := [%s]." % ";".join(
+                "(%s, %s)" % (coq_bytes(p_.encode()), "true" if g else "false") for p_, g in sorted(pat_groups.items())),
+            "Definition compile_tbl (p : bytes) : option (list bytes) := option_map snd (find (fun x => bytes_eqb (fst x) p) names_tbl).",
+            "Definition groups_of (p : bytes) : bool := match find (fun x => bytes_eqb (fst x) p) groups_tbl with Some x => snd x | None => false end.",
+            "Definition loaded_rules : option (list crule) := Eval vm_compute in (%s compile_tbl groups_of irules [])." % (
+                "gen_load_files" if load_ok else "load_files"),
+            "Definition rules : list crule := match loaded_rules with Some rs => rs | None => [] end.",
+            # what the engine loaded (hook dump): names, flag, line, templates, location -- must be what the model loads
+            "Definition dump : list (list bytes * bool * Z * bytes * bytes * bytes) := [%s]." % ";\n".join(
+                "([%s], %s, %d, %s, %s, %s)" % (";".join(coq_bytes(n.encode()) for n in lr["SubexpNames"]), "true" if lr["CaptureGroups"] else "false", lr["Line"],
+                                                coq_bytes(lr["Msg"].encode()), coq_bytes(lr["Suggestion"].encode()), coq_bytes(lr["Location"].encode())) for lr in loaded),
+            "Fixpoint all2 {A B} (f : A -> B -> bool) (xs : list A) (ys : list B) : bool := match xs, ys with [], [] => true | x :: xt, y :: yt => f x y && all2 f xt yt | _, _ => false end.",
+            "Definition same_rule (r : crule) (o : list bytes * bool * Z * bytes * bytes * bytes) : bool := match o with (names, g, ln, msg, sg, loc) =>",
+            "  all2 bytes_eqb (c_names r) names && Bool.eqb (c_groups r) g && (r_line (c_rule r) =? ln) && bytes_eqb (r_msg (c_rule r)) msg &&",
+            "  bytes_eqb (r_sugg (c_rule r)) sg && bytes_eqb (match r_loc (c_rule r) with Some v => v | None => [] end) loc end.",
+            "Definition LOADED_OK : bool := Eval vm_compute in (match loaded_rules with Some rs => all2 same_rule rs dump | None => false end).",
             "Definition rep_eqb (m : option mreport) (o : option (Z * Z * bytes * bool * Z * Z * bytes * Z)) : bool :=",
             "  match m, o with None, None => true | Some r, Some (pos, en, msg, hs, sf, st, sg, ln) =>",
             "    (rep_pos r =? pos) && (rep_end r =? en) && bytes_eqb (rep_msg r) msg && (rep_line r =? ln) &&",
@@ -258,10 +405,11 @@ def run(c):
                          "Ok r => negb (rep_eqb r ob) | Panic _ => true end" % fresh)
             s.append("Definition bad := map (fun c => match c with (i, _, _, _, _, _, _, _) => i end) (filter (fun c => match c with (i, l, f, off, text, idxs, mt, ob) => "
                      "%s end) cases)." % model)
-            s.append("Definition RES := Eval vm_compute in (bad, List.length cases).")
+            s.append("Definition RES := Eval vm_compute in (bad, List.length cases, LOADED_OK).")
             s.append("Print RES.")
             return "\n".join(s)
         NSH = 8
+        load_mismatch = []
         jobs = [("Cases_%s_%d.v" % (tag, k), shard(good[k::NSH])) for k in range(NSH)]
         bad = []
         for (fname, _), (ok, out) in zip(jobs, c.coq_eval_many(jobs, timeout=1500)):
@@ -272,7 +420,15 @@ def run(c):
             if not m:
                 c.obligation("coq-eval-parse:" + fname, False, out[-2000:])
                 return
+            mm = pyre.search(r",\s*(true|false)\s*\)\s*(?::|$)", out[m.end():], pyre.S)
+            if mm is None or mm.group(1) != "true":
+                if not load_mismatch:
+                    load_mismatch.append(fname)
             bad += [int(x.replace("%Z", "").strip()) for x in m.group(1).split(";") if x.strip()]
+        if load_mismatch:
+            c.fail("corr", "the rule list the Coq loader (%s) builds from the calls as written differs from what the engine loaded" % (
+                "translated from ir_loader.go" if load_ok else "model"), input={"calls": len(irules), "rules_files": nfiles},
+                observed=[(lr["Group"], lr["Pattern"], lr["Line"]) for lr in loaded][:30])
         badset = set(bad)
         for i, f in pending:
             c.fail("oracle", finding=(FINDING if i not in badset else None), **f)
